@@ -78,7 +78,7 @@ SendImpl(m) ==
 Send(m, out) ==
   /\ SendOK(m, out)
   /\ IF out = "ok"
-       THEN /\ q' = Append(q, [m |-> m, wire |-> Wire(m), descs |-> IF layer = "gob" THEN Carried(m) ELSE {}])
+       THEN /\ q' = Append(q, [m |-> m, wire |-> Wire(m), descs |-> IF layer = "gob" THEN Carried(m) ELSE {}, bad |-> FALSE])
             /\ acc' = Append(acc, m.id)
             /\ pend' = {}
        ELSE /\ UNCHANGED <<q, acc>>
@@ -86,20 +86,30 @@ Send(m, out) ==
   /\ encKnown' = IF layer = "gob" THEN encKnown \cup {m.typ} ELSE encKnown
   /\ UNCHANGED <<layer, passcred, dlv, lost, arrived, handed, closed, decKnown, held>>
 
+\* a packet on the connection that is not a message of the framed protocol (garbage, a cut gob stream, a
+\* type described twice ...), possibly with descriptors attached: the receiving framed socket must reject
+\* it as a whole -- nothing of it is ever delivered, its descriptors are closed, and every later message is
+\* still delivered exactly as sent.  m.id identifies the packet, it is never in acc.
+Inject(m) ==
+  /\ layer = "gob" /\ m.nfds <= MaxFds
+  /\ q' = Append(q, [m |-> m, wire |-> m.val, descs |-> {}, bad |-> TRUE])
+  /\ UNCHANGED <<layer, passcred, acc, dlv, lost, arrived, handed, closed, encKnown, decKnown, pend, held>>
+
 \* ------------------------------------------------------------------ receiving
 \* a receive request: [rbuf, want, free]; want = "M" (a type the message decodes into) | "X" (none does);
 \* free = number of free slots in the receiver's descriptor table (RLIMIT_NOFILE), -1 = plenty.
 \* The kernel installs the first `free` descriptors of a message and flags the rest as cut (MSG_CTRUNC).
 Room(p, r) == r.free < 0 \/ p.m.nfds <= r.free
 Installed(p, r) == IF Room(p, r) THEN p.m.nfds ELSE r.free
-RecvFits(p, r) == /\ Room(p, r)
+RecvFits(p, r) == /\ ~p.bad
+                  /\ Room(p, r)
                   /\ IF layer = "raw" THEN p.wire >= 1 /\ p.wire <= r.rbuf ELSE r.want # "X"
 RecvOK(p, r, out) == out = IF RecvFits(p, r) THEN "ok" ELSE "rej"
 Decodable(p) == p.m.typ \in decKnown \cup p.descs
 RecvImpl(p, r) ==
   IF RejectCtrunc /\ ~Room(p, r) THEN "rej"                                       \* MSG_CTRUNC
   ELSE IF layer = "raw" THEN (IF p.wire = 0 \/ p.wire > r.rbuf THEN "rej" ELSE "ok")  \* EOF | MSG_TRUNC
-  ELSE IF ~Decodable(p) \/ r.want = "X" THEN "rej" ELSE "ok"
+  ELSE IF p.bad \/ ~Decodable(p) \/ r.want = "X" THEN "rej" ELSE "ok"
 
 \* aliasing: the descriptor list / credentials of an earlier message show those of the newest one
 Alias(h, m) == LET c == h.cur IN
@@ -121,7 +131,7 @@ Recv(r, out) ==
             THEN /\ dlv' = Append(dlv, p.m.id) /\ handed' = handed + n /\ UNCHANGED <<lost, closed>>
                  /\ held' = Append(IF ValueHandover THEN held ELSE [i \in DOMAIN held |-> Alias(held[i], p.m)],
                                    [orig |-> p.m, cur |-> p.m, seen |-> FALSE])
-            ELSE /\ lost' = lost \cup {p.m.id} /\ closed' = closed + (IF CloseOnReject THEN n ELSE 0)
+            ELSE /\ lost' = (IF p.bad THEN lost ELSE lost \cup {p.m.id}) /\ closed' = closed + (IF CloseOnReject THEN n ELSE 0)
                  /\ UNCHANGED <<dlv, handed, held>>
        \* the decoder sees the packet's bytes unless the socket layer dropped the packet
        /\ decKnown' = IF Room(p, r) \/ AbsorbDesc THEN decKnown \cup p.descs ELSE decKnown
@@ -131,13 +141,13 @@ Recv(r, out) ==
 ExpCred(p, own) == IF ~passcred THEN <<>> ELSE IF p.m.cred = <<>> THEN own ELSE p.m.cred
 
 \* ------------------------------------------------------------------ properties
-InFlight == { q[i].m.id : i \in DOMAIN q }
+InFlight == { q[i].m.id : i \in { j \in DOMAIN q : ~q[j].bad } }
 Range(s) == { s[i] : i \in DOMAIN s }
 \* in order: what was delivered is, in order, what was accepted minus what the receiver refused
 InOrder == dlv = SelectSeq(acc, LAMBDA i : i \notin lost /\ i \notin InFlight)
 \* whole or not at all: every accepted message is in flight, delivered or refused -- exactly one of them
 Whole == /\ Range(acc) = InFlight \cup Range(dlv) \cup lost
-         /\ Len(acc) = Len(q) + Len(dlv) + Cardinality(lost)
+         /\ Len(acc) = Cardinality(InFlight) + Len(dlv) + Cardinality(lost)
 LedgerBalanced == arrived = handed + closed
 \* a delivered message is immutable: whatever happens on the socket afterwards, the caller finds in it the
 \* descriptors (same files, same order) and the credentials it was delivered with
